@@ -107,6 +107,17 @@ type sessRunner struct {
 	rc      *RunCtx
 	tc      *treeCache
 	nResolve int
+	pool    []*callerMap // maps this caller handed to the runner before and may hand over again
+}
+
+// callerMap: a data map object owned by the caller. A Go map is a reference: the
+// model keeps the same object too, so locals written while it was the runner's
+// map are still in it when the caller hands it over again, and entries the
+// caller writes into it directly are seen by the next evaluation.
+type callerMap struct {
+	g     map[string]interface{}
+	m     map[string]MV
+	stubs map[string]bool
 }
 
 func (sr *sessRunner) violation(oracle, class, detail string) {
@@ -549,8 +560,23 @@ func (sr *sessRunner) opSetThis(s *Stream) {
 		sr.hist = append(sr.hist, "SETTHIS(nil)")
 		return
 	}
+	if len(sr.pool) > 0 && s.Intn(4) == 0 {
+		// the caller hands over a map it has handed over before
+		k := s.Intn(len(sr.pool))
+		cm := sr.pool[k]
+		sr.m.hasThis, sr.m.this, sr.m.stubs = true, cm.m, cm.stubs
+		sr.cur = cm.g
+		sr.api("SetThis(map)", func() { sr.r.SetThis(sr.cur) })
+		sr.hist = append(sr.hist, "SETTHIS(again map#"+strconv.Itoa(k)+" now "+mMap(cm.m).String()+")")
+		sr.rc.probe("same_map_object_handed_over_again")
+		return
+	}
 	nm := &runnerModel{hasThis: true, this: map[string]MV{}, stubs: map[string]bool{}, aux: sr.m.aux}
+	empty := s.Intn(10) == 0 // an empty, non-nil map is a map too
 	for _, n := range sessNames {
+		if empty {
+			break
+		}
 		if n == "o" {
 			if s.Bool(2, 3) {
 				nm.this["o"] = mMap(map[string]MV{"a": mNum(int64(1 + s.Intn(9))), "b": mStr("ob"), "c": mBool(true)})
@@ -561,23 +587,38 @@ func (sr *sessRunner) opSetThis(s *Stream) {
 			nm.this[n] = sr.randomValue(s)
 		}
 	}
-	carried := ""
 	for _, l := range sessLocals { // the new map may carry locals itself
-		if s.Intn(5) == 0 {
+		if !empty && s.Intn(5) == 0 {
 			nm.this[l] = sr.randomValue(s)
-			carried += l
 		}
 	}
 	for _, st := range sessStubs {
-		if s.Intn(8) != 0 {
+		if !empty && s.Intn(8) != 0 {
 			nm.stubs[st] = true
 		}
 	}
 	sr.flavour = s.Intn(4)
 	sr.m.hasThis, sr.m.this, sr.m.stubs = true, nm.this, nm.stubs
 	sr.cur = sr.goMap(sr.m)
+	if len(sr.pool) < 3 {
+		sr.pool = append(sr.pool, &callerMap{g: sr.cur, m: nm.this, stubs: nm.stubs})
+	}
+	sr.hist = append(sr.hist, "SETTHIS(map#"+strconv.Itoa(len(sr.pool)-1)+" "+mMap(nm.this).String()+")")
 	sr.api("SetThis(map)", func() { sr.r.SetThis(sr.cur) })
-	sr.hist = append(sr.hist, "SETTHIS("+mMap(nm.this).String()+")")
+}
+
+// opCallerWrite: the caller writes a non-$ entry directly into the map it handed over.
+func (sr *sessRunner) opCallerWrite(s *Stream) {
+	if sr.cur == nil || !sr.m.hasThis {
+		return
+	}
+	sr.ops++
+	key := sessNames[s.Intn(len(sessNames)-2)]
+	v := sr.randomValue(s)
+	sr.cur[key] = v.toGo(s.Intn(4))
+	sr.m.this[key] = v
+	sr.hist = append(sr.hist, "CALLER-WRITES("+key+","+v.String()+")")
+	sr.rc.probe("caller_writes_into_its_map_between_operations")
 }
 
 func (sr *sessRunner) opSetVal(s *Stream) {
@@ -829,9 +870,13 @@ func runSessions(rc *RunCtx) {
 			case r < 9:
 				sr.opFetch(s)
 			case r < 10:
-				sr.ops++
-				sr.hist = append(sr.hist, "PROBE")
-				sr.probeLocals("PROBE")
+				if s.Bool(1, 2) {
+					sr.opCallerWrite(s)
+				} else {
+					sr.ops++
+					sr.hist = append(sr.hist, "PROBE")
+					sr.probeLocals("PROBE")
+				}
 			default:
 				sr.opEval(s, maxNodes, maxDepth, faults, true)
 			}
